@@ -12,6 +12,7 @@ The counter is generic in the row key `key : FeatureInfo → κ`:
   `idKey`    = the running `FeatureInfo.id` the code before the fix (kept as the `…Buggy` variant)
 -/
 import IsoVerif.Gen.Prims
+import IsoVerif.Gen.Strategies
 import IsoVerif.Model.Interval
 import IsoVerif.Model.Profiles
 
@@ -307,5 +308,17 @@ def mkGene (chr : String) (delta : Int) (nextId : Nat) (g : GeneIn) : GeneModel 
 def mkGenes (chr : String) (delta : Int) : Nat → List GeneIn → List GeneModel
   | _, [] => []
   | n, g :: gs => let (m, n') := mkGene chr delta n g; m :: mkGenes chr delta n' gs
+
+/-! ### the delta a run uses (isoquant.py set_matching_options) -/
+
+/-- `if args.delta is None: args.delta = strategy.delta; elif args.delta < 0: exit` over the regenerated preset table.
+    `none` = unknown strategy (KeyError) or negative explicit delta (the code exits). -/
+def effectiveDelta (strategy : String) (explicit : Option Int) : Option Int :=
+  match matching_presets.lookup strategy with
+  | none => none
+  | some p =>
+    match explicit with
+    | none => some p.delta
+    | some d => if d < 0 then none else some d
 
 end IsoVerif.Model.C13
